@@ -486,7 +486,14 @@ pub fn render(m: &Model, l: &Layout) -> Vec<String> {
         if l.extra_attrs & 8 != 0 {
             w.s.push('\u{feff}'); // byte order mark
         }
-        w.s.push_str("<?xml version=\"1.0\" encoding=\"UTF-8\"?>");
+        // the XML declaration: usual, version 1.1, a bare major version, without encoding, or none at all
+        match (l.child_keys.first().copied().unwrap_or(0) as usize + file) % 11 {
+            0 => w.s.push_str("<?xml version=\"1.1\" encoding=\"UTF-8\"?>"),
+            1 => w.s.push_str("<?xml version=\"1\"?>"),
+            2 => w.s.push_str("<?xml version=\"1.0\"?>"),
+            3 => {}
+            _ => w.s.push_str("<?xml version=\"1.0\" encoding=\"UTF-8\"?>"),
+        }
         let root = format!("{}FIBEX", st.fx);
         w.open(
             &root,
